@@ -36,6 +36,13 @@ func strTemplate(v ssa.Value, bind map[*ssa.Parameter]ssa.Value, depth int, vars
 		break
 	}
 	switch x := o.(type) {
+	case *ssa.Parameter:
+		// an unbound string parameter: a variable part
+		if b, isB := x.Type().Underlying().(*types.Basic); isB && b.Info()&types.IsString != 0 {
+			*vars = append(*vars, x)
+			return "%s", true
+		}
+		return "", false
 	case *ssa.Const:
 		if x.Value == nil {
 			return "", true // nil []byte
